@@ -27,6 +27,7 @@ RULE = (
     "(b),(c) metamorphic: tree identical to the base tree / difference confined to the field's "
     "leaves. Non-trivial: the varied region is non-empty and the base content differed."
     " Complex entries are additionally blanked one numeric column at a time (that half must be NaN; the written half as written or NaN)."
+    " Blank fields of the image files (descriptor and line records) are also judged on the tree returned by an open that writes the index cache and on a tree served from that cache (the index must not invent or drop anything for a blank field)."
 )
 ASSUMPTIONS = [
     "which fields are nullable is stated in vf/ceosgen/product.py (counts, lengths, code/flag columns and date-time texts are required)",
@@ -115,11 +116,10 @@ def pad_content(leaf, rng, style=None):
     return None
 
 
-def open_variant(spec, info, changes):
+def open_variant(spec, info, changes, open_mode="plain"):
     vspec = product.pinned_spec(spec, info, changes)
     files, vinfo = product.build_product(vspec)
-    with harness.Materialised(files, "memory") as prod:
-        tree, err = harness.guard(harness.open_tree, prod.url, use_cache=False)
+    with common.open_in_mode(files, vinfo["names"]["sar_imagery"], open_mode or "plain") as (tree, err):
         if err is not None:
             return vspec, vinfo, None, err
         flat, err = harness.guard(harness.flatten, tree)
@@ -179,12 +179,14 @@ def run_case(case):
                 h = leaf.width // 2
                 value = (" " * h + text[h:]) if half == "real" else (text[:h] + " " * (leaf.width - h))
             put(changes, kind, k, i, leaf.path, value)
-        vspec, vinfo, flat, err = open_variant(spec, info, changes)
+        vspec, vinfo, flat, err = open_variant(spec, info, changes, case.get("open_mode"))
         if err is not None:
             return [harness.disc("exception", "open_alos2 with blank field(s)", "a tree", harness.exc_text(err), fields=[t[3].path for t in picked][:5])]
         out = model_check(vspec, vinfo, flat)
         for d in out:
             d.setdefault("context", {})["blanked"] = [t[3].path for t in picked][:5]
+            if case.get("open_mode"):
+                d["context"]["open_mode"] = case["open_mode"]
         return out
     if mode in ("pad-one", "pad-all"):
         tg = targets(name, "pad")
@@ -298,6 +300,11 @@ def enum_cases(tier):
                         yield {"base": name, "mode": mode, "index": index, "style": "numbers"}
                 else:
                     yield {"base": name, "mode": mode, "index": index}
+                    if kind in ("header", "lines"):
+                        # fields of the image files also travel through the index cache: the tree
+                        # returned by the cache-writing open and the tree served from the cache
+                        yield {"base": name, "mode": mode, "index": index, "open_mode": "creating"}
+                        yield {"base": name, "mode": mode, "index": index, "open_mode": "cached"}
                     if leaf.codec == "A-complex":
                         yield {"base": name, "mode": mode, "index": index, "half": "real"}
                         yield {"base": name, "mode": mode, "index": index, "half": "imag"}
@@ -351,6 +358,7 @@ def subset_cases(draw):
         "mode": "blank-subset",
         "fraction": draw(st.sampled_from([0.02, 0.1, 0.5, 1.0])),
         "sseed": draw(st.integers(0, 2**32 - 1)),
+        "open_mode": draw(st.sampled_from([None, None, "creating", "cached"])),
     }
 
 
@@ -365,7 +373,7 @@ def plan(tier):
 
 
 def classify(case):
-    return True, [f"mode={case['mode']}", f"base={case['base']}"]
+    return True, [f"mode={case['mode']}", f"base={case['base']}", f"open_mode={case.get('open_mode') or 'plain'}"]
 
 
 LEVEL_TEXT = (
